@@ -23,11 +23,11 @@ import (
 
 	ammtypes "github.com/elys-network/elys/x/amm/types"
 	aptypes2 "github.com/elys-network/elys/x/assetprofile/types"
-	tokenomicstypes "github.com/elys-network/elys/x/tokenomics/types"
 	lptypes "github.com/elys-network/elys/x/leveragelp/types"
 	ptypes "github.com/elys-network/elys/x/parameter/types"
 	perptypes "github.com/elys-network/elys/x/perpetual/types"
 	sstypes "github.com/elys-network/elys/x/stablestake/types"
+	tokenomicstypes "github.com/elys-network/elys/x/tokenomics/types"
 	tstypes "github.com/elys-network/elys/x/tradeshield/types"
 )
 
